@@ -306,7 +306,7 @@ Proof.
   intro Hv. unfold urt. rewrite wline_seg2. destruct (seg_nl 2 _ _ tk_name Hv) as [A B].
   rewrite (rtext_line _ _ _ _ _ _ _ A B). rewrite (rstep_seg _ _ _ _ _ _ _ _ tk_name Hv).
   unfold S0. cbn [r_indent indent_differs Nat.eqb negb r_has r_st].
-  unfold user_finish. cbn [us_u set_id u_name fresh_user].
+  unfold user_finish. cbn [us_u set_id u_name u_id fresh_user].
   unfold user_new. cbn [us_u r_st r_indent r_has].
   unfold user_exec. rewrite dp_name. cbn [us_u]. reflexivity.
 Qed.
